@@ -196,6 +196,17 @@ def f_arity(b, rng):
     return 'wrong arity: %s' % str(new).strip()
 
 
+def f_no_dest(b, rng):
+    """a net that drives nothing (an empty destination tuple), next to the well-formed rest"""
+    cands = _nets(b, 'r&|~w+c')
+    if not cands:
+        return None
+    n = rng.choice(cands)
+    new = LogicNet(n.op, n.op_param, n.args, ())
+    b.logic.add(new)
+    return 'a %s net without a destination: %s' % (n.op, str(new).strip()[:60])
+
+
 def f_width(b, rng):
     kind = rng.choice(['args', 'dest', 'muxsel', 'cmpdest', 'memdata', 'memaddr'])
     with pyrtl.set_working_block(b, no_sanity_check=True):
@@ -353,7 +364,7 @@ def f_comb_cycle(b, rng):
 
 FAULTS = [('two-drivers', f_two_drivers), ('undriven', f_undriven), ('undriven-register', f_undriven_reg), ('undriven-sync-address', f_undriven_sync_addr),
           ('unconnected', f_unconnected),
-          ('foreign-wire', f_foreign), ('arity', f_arity), ('bitwidth', f_width), ('op-param', f_param),
+          ('foreign-wire', f_foreign), ('arity', f_arity), ('no-destination', f_no_dest), ('bitwidth', f_width), ('op-param', f_param),
           ('bitwidth-inplace', f_width_inplace), ('input-const-dest', f_input_dest), ('output-arg', f_output_arg), ('dup-name', f_dup_name),
           ('comb-cycle', f_comb_cycle)]
 
@@ -446,6 +457,23 @@ def main(ctx):
             if v != 'accepted':
                 ctx.violation('api-renamed-rejected', 'an API-built design whose wires %r were renamed (w.name = ...) while another block '
                               'was the working block is rejected: %s' % (renamed, v), replay0)
+        # (a'') nets the API never emits but the Block documentation allows (a concat of a single wire): the design is
+        # as well formed as before
+        if k % 3 == 1:
+            b4 = pyrtl.copy_block(d.block, update_working_block=False)
+            srcs4 = sorted((w for w in b4.wirevector_set if not isinstance(w, Output)), key=lambda w: w.name)
+            if srcs4:
+                with pyrtl.set_working_block(b4, no_sanity_check=True):
+                    w4 = rng.choice(srcs4)
+                    o4 = Output(len(w4), 'verif_single_concat')
+                b4.logic.add(LogicNet('c', None, (w4,), (o4,)))
+                ctx.count('single-argument-concat', 'added')
+                v = rejected_by(b4, lambda b: b.sanity_check())
+                if v == 'accepted':
+                    v = rejected_by(b4, construct(rng.choice(SIMS[:2])))
+                if v != 'accepted':
+                    ctx.violation('wellformed-rejected:single-argument-concat', 'a design with a concat net of one argument (%s -> %s, equal '
+                                  'widths; "c" takes any number of wires) is rejected: %s' % (w4.name, o4.name, v), replay0)
         # (b) one fault of each class
         for fname, inject in FAULTS:
             b2 = pyrtl.copy_block(d.block, update_working_block=False)
